@@ -15,6 +15,7 @@ from __future__ import annotations
 
 import queue
 import random
+import re
 from concurrent.futures import ThreadPoolExecutor
 from pathlib import Path
 
@@ -37,6 +38,9 @@ TRUSTED = [
 
 RANK = {"allow": 0, "ask": 1, "deny": 2}
 NWORK = 10
+
+
+_ASSIGN_SHAPED = re.compile(r"[A-Za-z_][A-Za-z0-9_]*(\[[^\]]*\])?\+?=")
 
 
 def _norm_log(case, log):
@@ -283,6 +287,10 @@ def run(tier, seed, replay=None):
                     if not argv:
                         continue
                     va = ladder(argv, remote=remote)
+                    if _ASSIGN_SHAPED.match(argv[0]) and RANK[va] < RANK["ask"]:
+                        # the program really executed is CALLED NAME=value; the ladder, given bare words, would skip the
+                        # word as an assignment - it is an unknown program, asked about at least
+                        va = "ask"
                     if RANK[va] > RANK[worst]:
                         worst, worst_argv = va, argv
                 if RANK[v] < RANK[worst]:
